@@ -21,7 +21,14 @@ type E struct{ V, P int }
 
 var e *enum.E
 
+// afterPanic prefixes the messages of the family that re-runs the battery after a failed callback.
+var afterPanic string
+
 func fail(sig string, in any, format string, a ...any) {
+	if afterPanic != "" {
+		format = afterPanic + format
+		sig += "|after-panic"
+	}
 	e.Fail(sig, map[string]any{"input": fmt.Sprint(in), "fn": sig}, "input %v: "+format, append([]any{in}, a...)...)
 }
 
@@ -85,6 +92,56 @@ func main() {
 			s := append(make([]int, 0, n+3), base...)
 			e.Input(true)
 			checkSlice(s, base)
+		}
+	}
+	// a callback that panics at its k-th invocation, recovered by the caller: every helper must work as
+	// before afterwards (state kept between calls: pooled scratch lists, recycled builders)
+	{
+		in := []int{0, 1, 2, 1, 0, 2, 2}
+		boom := func(k int) func() {
+			n := 0
+			return func() {
+				n++
+				if n == k {
+					panic("callback failed")
+				}
+			}
+		}
+		type fc struct {
+			name string
+			run  func(tick func())
+		}
+		fcs := []fc{
+			{"Filter", func(t func()) { slices.Filter(in, func(int) bool { t(); return true }) }},
+			{"Map", func(t func()) { slices.Map(in, func(v int) int { t(); return v }) }},
+			{"MapErr", func(t func()) { slices.MapErr(in, func(v int) (int, error) { t(); return v, nil }) }},
+			{"Fold", func(t func()) { slices.Fold(in, 0, func(a, v int) int { t(); return a + v }) }},
+			{"FoldReverse", func(t func()) { slices.FoldReverse(in, 0, func(a, v int) int { t(); return a + v }) }},
+			{"GroupBy", func(t func()) { slices.GroupBy(in, func(v int) int { t(); return v }) }},
+			{"CountBy", func(t func()) { slices.CountBy(in, func(v int) int { t(); return v }) }},
+			{"DistinctFunc", func(t func()) { slices.DistinctFunc(in, func(a, b int) bool { t(); return a == b }) }},
+			{"IndexFunc", func(t func()) { slices.IndexFunc(in, func(int) bool { t(); return false }) }},
+			{"ContainsFunc", func(t func()) { slices.ContainsFunc(in, 5, func(a, b int) bool { t(); return false }) }},
+			{"Any", func(t func()) { slices.Any(in, func(int) bool { t(); return false }) }},
+			{"All", func(t func()) { slices.All(in, func(int) bool { t(); return true }) }},
+			{"TrimFunc", func(t func()) { slices.TrimFunc(in, func(int) bool { t(); return true }) }},
+			{"TrimLeftFunc", func(t func()) { slices.TrimLeftFunc(in, func(int) bool { t(); return true }) }},
+			{"TrimRightFunc", func(t func()) { slices.TrimRightFunc(in, func(int) bool { t(); return true }) }},
+		}
+		for _, f := range fcs {
+			for k := 1; k <= 3; k++ {
+				func() {
+					defer func() { recover() }()
+					f.run(boom(k))
+				}()
+				for _, base := range [][]int{{0, 1, 2, 1, 0, 2, 2}, {2, 2, 1}, {1}} {
+					sz := fmt.Sprintf("after %s's callback panicked at invocation %d: ", f.name, k)
+					afterPanic = sz
+					e.Input(true)
+					checkSlice(append(make([]int, 0, len(base)+2), base...), base)
+					afterPanic = ""
+				}
+			}
 		}
 	}
 	checkManyKeys()
